@@ -117,6 +117,11 @@ func (s errSpec) build() (error, int) {
 			e = leader.NewTimeoutError(text, time.Second, e)
 		case "join":
 			e = errors.Join(errors.New(text), e)
+		case "fmt2":
+			// two %w verbs: the element sits next to a neutral sibling (errors.Is/As descend into both)
+			e = fmt.Errorf("%s: %w (also: %w)", text, errors.New(text), e)
+		case "fmt2r":
+			e = fmt.Errorf("%s: %w (also: %w)", text, e, errors.New("sibling"))
 		}
 	}
 	return e, l.class
@@ -145,7 +150,7 @@ func genErrSpec() *rapid.Generator[errSpec] {
 		s := errSpec{Leaf: l.name, Text: genText().Draw(t, "text"), Num: rapid.IntRange(0, 20000).Draw(t, "num")}
 		depth := rapid.IntRange(0, 6).Draw(t, "depth")
 		for i := 0; i < depth; i++ {
-			kinds := []string{"fmt", "fmt", "fmt", "election", "tokval", "join"}
+			kinds := []string{"fmt", "fmt", "fmt", "election", "tokval", "join", "fmt2", "fmt2r"}
 			if l.class != clsPermanent {
 				kinds = append(kinds, "timeouterr")
 			}
@@ -215,7 +220,7 @@ func checkC15(s errSpec) (string, string) {
 func TestC15(t *testing.T) {
 	r := report.New("C15")
 	defer r.Write()
-	r.Rule = "error trees: a leaf (every exported sentinel and error type of the library, context.Canceled/DeadlineExceeded, the NATS client's exported errors, *nats.APIError with generated codes, the exact values the client produces for a failed revision-checked Update and a Create on an existing key (as produced by the reference store, validated against a real server by C14), errors.New(text) with text from a dictionary of all pattern words in mixed case or arbitrary strings) wrapped 0-6 times by fmt.Errorf(\"<text>: %w\"), ElectionError, TokenValidationError, TimeoutError (only around non-permanent leaves), errors.Join; oracle: exactly one of IsPermanentError / IsTransientError for every non-nil error, both false for nil, class membership for must-be-transient and must-be-permanent leaves. Non-trivial = wrap depth >= 1 or a NATS-client leaf; distinct by hash of the tree."
+	r.Rule = "error trees: a leaf (every exported sentinel and error type of the library, context.Canceled/DeadlineExceeded, the NATS client's exported errors, *nats.APIError with generated codes, the exact values the client produces for a failed revision-checked Update and a Create on an existing key (as produced by the reference store, validated against a real server by C14), errors.New(text) with text from a dictionary of all pattern words in mixed case or arbitrary strings) wrapped 0-6 times by fmt.Errorf(\"<text>: %w\"), fmt.Errorf with two %w verbs (the element next to a neutral errors.New sibling, either order), ElectionError, TokenValidationError, TimeoutError (only around non-permanent leaves), errors.Join; oracle: exactly one of IsPermanentError / IsTransientError for every non-nil error, both false for nil, class membership for must-be-transient and must-be-permanent leaves. Non-trivial = wrap depth >= 1 or a NATS-client leaf; distinct by hash of the tree."
 	r.Assume("for the NATS client's time-out / no-responders / connection-closed values the class is asserted only under wrappers whose own text contains none of the documented permanent marker words")
 	r.Assume("trees that mix a must-be-transient element with a must-be-permanent element are not generated (the statement does not order them); errors.Join trees assert only totality/exclusivity")
 	judge := func(s errSpec) string {
@@ -257,7 +262,7 @@ func TestC15(t *testing.T) {
 	t.Run("enumerated", func(t *testing.T) {
 		for _, l := range leaves {
 			for _, text := range patternWords {
-				for _, wraps := range [][]string{nil, {"fmt:" + text}, {"fmt:ctx", "election:" + text}} {
+				for _, wraps := range [][]string{nil, {"fmt:" + text}, {"fmt:ctx", "election:" + text}, {"fmt2:" + text}, {"fmt2r:" + text, "fmt:" + text}} {
 					if msg := judge(errSpec{Leaf: l.name, Text: text, Num: 7, Wraps: wraps}); msg != "" {
 						t.Error(msg)
 					}
@@ -290,7 +295,7 @@ func FuzzC15(f *testing.F) {
 			if i == 0 || i > 6 {
 				continue
 			}
-			kinds := []string{"fmt", "election", "tokval"}
+			kinds := []string{"fmt", "election", "tokval", "fmt2", "fmt2r"}
 			if l.class != clsPermanent {
 				kinds = append(kinds, "timeouterr")
 			}
